@@ -28,6 +28,12 @@ def run(ctx):
         g = gen.ProgGen(w, rnd, ntids=3, noise=0.1)
         progs = [g.program(t, rnd.randrange(1, 4)) for t in (1, 2, 3)]
         stream = gen.interleave(rnd, progs)[:60]
+        for _ in range(rnd.randrange(0, 5)):
+            num = rnd.choice([4, 3, 7, 1, 0x25, 0x1f, 0x40c, 0x0301, 0x701, 0, 255])
+            eid = rnd.choice([(num << 16) & 0xfffffffc | 0x10, ((num & 0xff) << 24) | 0x20, (num << 8) & 0xfffffffc | 4,
+                              ((num & 0xffff) << 16) | 0x8])
+            if eid not in w.codes:
+                stream.insert(rnd.randrange(0, len(stream) + 1), w.unknown(rnd.choice([0, 1, 2, 3]), rnd.choice([1, 2, 3]), eid))
         tmap = [(t, 10 + t, 'p%d' % t) for t in rnd.sample([1, 2, 3], rnd.randrange(0, 4))]
         logs = None
         if i % 2:
@@ -40,7 +46,7 @@ def run(ctx):
         for j in range(rnd.choice([1, 2, 3])):
             cfg = {'ftid': rnd.choice([0, 0, 1, 2, 3, 9]),
                    'fproc': rnd.choice([{'kind': 'none'}, {'kind': 'pid', 'pid': rnd.choice([11, 12, 0])},
-                                        {'kind': 'name', 'name': rnd.choice(['p1', 'other', 'nobody'])}]),
+                                        {'kind': 'name', 'name': rnd.choice(['p1', 'other', 'nobody', ''])}]),
                    'fclass': list(rnd.choice(CLASS_LISTS)), 'fsub': list(rnd.choice(SUB_LISTS))}
             apply_cfg(w, p, cfg, as_tuple=(i + j) % 2 == 0)
             op = 'logs' if logs is not None and rnd.random() < 0.4 else 'kevents'
